@@ -5,12 +5,46 @@ From CKT Require Import Common.Base Extracted.Facts Model.Kappa Proofs.KappaP Mo
 Close Scope Q_scope.
 Local Open Scope R_scope.
 
+(* N = u0 II + u1 XX + u2 YY + u3 ZZ, entry by entry *)
+Definition ntable (u0 u1 u2 u3 : C) : list (list C) :=
+  [[Cadd u0 u3; C0; C0; Cadd u1 (Cneg u2)];
+   [C0; Cadd u0 (Cneg u3); Cadd u1 u2; C0];
+   [C0; Cadd u1 u2; Cadd u0 (Cneg u3); C0];
+   [Cadd u1 (Cneg u2); C0; C0; Cadd u0 u3]].
+
 Ltac idx4 i Hi := destruct i as [|[|[|[|i]]]]; [| | | |exfalso; lia].
 
 Ltac unfold_mats :=
   cbv [mscale mmul kron sum4 kak_mat nonlocal_mat sigma sI sX sY sZ Hm Dph m2 table_mat
        rzx_mat xxpyy_mat xxmyy_mat rzx_table xxpyy_table xxmyy_table nth
        Nat.div Nat.modulo Nat.divmod Nat.sub fst snd Cmul Cadd Cscale Cneg C0 C1 Ci].
+
+(* the same, but complex arithmetic stays folded so that the many products with 0 and 1 can be removed first *)
+Ltac unfold_shapes :=
+  cbv [ntable mscale mmul kron sum4 kak_mat nonlocal_mat sigma sI sX sY sZ Hm Dph m2 table_mat
+       rzx_mat xxpyy_mat xxmyy_mat rzx_table xxpyy_table xxmyy_table nth
+       Nat.div Nat.modulo Nat.divmod Nat.sub].
+
+Lemma Cmul_0_l x : Cmul C0 x = C0.
+Proof. destruct x; cbv [Cmul C0 fst snd]; f_equal; ring. Qed.
+Lemma Cmul_0_r x : Cmul x C0 = C0.
+Proof. destruct x; cbv [Cmul C0 fst snd]; f_equal; ring. Qed.
+Lemma Cmul_1_l x : Cmul C1 x = x.
+Proof. destruct x; cbv [Cmul C1 fst snd]; f_equal; ring. Qed.
+Lemma Cmul_1_r x : Cmul x C1 = x.
+Proof. destruct x; cbv [Cmul C1 fst snd]; f_equal; ring. Qed.
+Lemma Cadd_0_l x : Cadd C0 x = x.
+Proof. destruct x; cbv [Cadd C0 fst snd]; f_equal; ring. Qed.
+Lemma Cadd_0_r x : Cadd x C0 = x.
+Proof. destruct x; cbv [Cadd C0 fst snd]; f_equal; ring. Qed.
+Lemma C0_pair : (0, 0) = C0.
+Proof. reflexivity. Qed.
+
+Ltac csimp := rewrite ?C0_pair;
+  repeat (rewrite Cmul_0_l || rewrite Cmul_0_r || rewrite Cmul_1_l || rewrite Cmul_1_r
+          || rewrite Cadd_0_l || rewrite Cadd_0_r).
+
+Ltac finish := cbv [Cmul Cadd Cscale Cneg C0 C1 Ci fst snd]; f_equal.
 
 Lemma Hm_sq i j : (i < 2)%nat -> (j < 2)%nat ->
   sum4 (fun k => Cmul (Hm i k) (Hm k j)) = Cscale 2 (sI i j).
@@ -22,22 +56,51 @@ Qed.
 Lemma kak_mat_prod a b c i j : kak_mat a b c i j = nonlocal_mat (u_prod a b c) i j.
 Proof. unfold kak_mat, nonlocal_mat, sum4. now rewrite !u_product by lia. Qed.
 
+(* the vector u at the coordinates of the three families *)
+Lemma u_rzx t k : (k < 4)%nat ->
+  u_prod (- t) 0 0 k = nth k [(cos t, 0); (0, - sin t); (0, 0); (0, 0)] (0, 0).
+Proof.
+  intros Hk. idx4 k Hk; cbn [u_prod nth]; rewrite cos_0, sin_0, cos_neg, sin_neg; f_equal; ring.
+Qed.
+
+Lemma u_xxpyy t k : (k < 4)%nat ->
+  u_prod (- t) (- t) 0 k =
+  nth k [(cos t * cos t, 0); (0, - (sin t * cos t)); (0, - (sin t * cos t)); (sin t * sin t, 0)] (0, 0).
+Proof.
+  intros Hk. idx4 k Hk; cbn [u_prod nth]; rewrite cos_0, sin_0, !cos_neg, !sin_neg; f_equal; ring.
+Qed.
+
+Lemma u_xxmyy t k : (k < 4)%nat ->
+  u_prod (- t) t 0 k =
+  nth k [(cos t * cos t, 0); (0, - (sin t * cos t)); (0, sin t * cos t); (- (sin t * sin t), 0)] (0, 0).
+Proof.
+  intros Hk. idx4 k Hk; cbn [u_prod nth]; rewrite cos_0, sin_0, !cos_neg, !sin_neg; f_equal; ring.
+Qed.
+
+Lemma nonlocal_table u i j : (i < 4)%nat -> (j < 4)%nat ->
+  nonlocal_mat u i j = table_mat (ntable (u 0%nat) (u 1%nat) (u 2%nat) (u 3%nat)) i j.
+Proof.
+  intros Hi Hj. destruct (u 0%nat) as [a0 b0] eqn:E0, (u 1%nat) as [a1 b1] eqn:E1,
+    (u 2%nat) as [a2 b2] eqn:E2, (u 3%nat) as [a3 b3] eqn:E3.
+  idx4 i Hi; idx4 j Hj; unfold nonlocal_mat, sum4; rewrite E0, E1, E2, E3;
+  cbv [ntable kron sigma sI sX sY sZ m2 table_mat nth Nat.div Nat.modulo Nat.divmod Nat.sub
+       Cmul Cadd Cneg C0 C1 Ci fst snd]; f_equal; ring.
+Qed.
+
+Ltac expand_with U :=
+  unfold mscale, mmul, sum4; rewrite !kak_mat_prod; rewrite !nonlocal_table by lia;
+  rewrite !U by lia; cbn [nth].
+
 Lemma rzx_kak theta i j : (i < 4)%nat -> (j < 4)%nat ->
   rzx_mat theta i j =
   mscale (/ 2) (mmul (mmul (kron sI Hm) (kak_mat (- (theta / 2)) 0 0)) (kron sI Hm)) i j.
 Proof.
-  intros Hi Hj.
-  unfold mscale, mmul, sum4. rewrite !kak_mat_prod.
-  unfold nonlocal_mat, sum4. cbn [u_prod].
-  rewrite cos_0, sin_0, cos_neg, sin_neg.
-  idx4 i Hi; idx4 j Hj; unfold_mats; f_equal; field.
+  intros Hi Hj. expand_with u_rzx.
+  idx4 i Hi; idx4 j Hj; unfold_shapes; csimp; finish; field.
 Qed.
 
-Ltac xx_setup theta beta :=
-  unfold mmul, sum4; rewrite !kak_mat_prod;
-  unfold nonlocal_mat, sum4; cbn [u_prod];
-  unfold xxpyy_mat, xxmyy_mat;
-  rewrite cos_0, sin_0, ?cos_neg, ?sin_neg;
+Ltac xx_trig theta beta :=
+  unfold xxpyy_mat, xxmyy_mat, Dph; rewrite cos_neg, sin_neg;
   replace (theta / 2) with (2 * (theta / 4)) by field; rewrite cos_2a, sin_2a;
   let H4 := fresh "H4" in let Hb := fresh "Hb" in
   pose proof (sin2_cos2 (theta / 4)) as H4; pose proof (sin2_cos2 beta) as Hb; unfold Rsqr in *;
@@ -48,14 +111,44 @@ Lemma xxpyy_kak theta beta i j : (i < 4)%nat -> (j < 4)%nat ->
   xxpyy_mat theta beta i j =
   mmul (mmul (kron (Dph beta) sI) (kak_mat (- (theta / 4)) (- (theta / 4)) 0)) (kron (Dph (- beta)) sI) i j.
 Proof.
-  intros Hi Hj. xx_setup theta beta.
-  idx4 i Hi; idx4 j Hj; unfold_mats; fold cb sb; f_equal; try ring; nra.
+  intros Hi Hj. expand_with u_xxpyy. xx_trig theta beta.
+  idx4 i Hi; idx4 j Hj; unfold_shapes; csimp; finish; try ring; nra.
 Qed.
 
 Lemma xxmyy_kak theta beta i j : (i < 4)%nat -> (j < 4)%nat ->
   xxmyy_mat theta beta i j =
   mmul (mmul (kron (Dph beta) sI) (kak_mat (- (theta / 4)) (theta / 4) 0)) (kron (Dph (- beta)) sI) i j.
 Proof.
-  intros Hi Hj. xx_setup theta beta.
-  idx4 i Hi; idx4 j Hj; unfold_mats; fold cb sb; f_equal; try ring; nra.
+  intros Hi Hj. expand_with u_xxmyy. xx_trig theta beta.
+  idx4 i Hi; idx4 j Hj; unfold_shapes; csimp; finish; try ring; nra.
+Qed.
+
+Lemma Dph_inv beta i j : (i < 2)%nat -> (j < 2)%nat ->
+  Cadd (Cmul (Dph beta i 0%nat) (Dph (- beta) 0%nat j)) (Cmul (Dph beta i 1%nat) (Dph (- beta) 1%nat j)) = sI i j.
+Proof.
+  intros Hi Hj. pose proof (sin2_cos2 beta) as H. unfold Rsqr in H.
+  destruct i as [|[|i]]; try lia; destruct j as [|[|j]]; try lia;
+  cbv [Dph sI m2 Cmul Cadd C0 C1 fst snd]; rewrite ?cos_neg, ?sin_neg; f_equal; try ring; nra.
+Qed.
+
+(* kappa of the KAK path at these coordinates = the documented closed forms *)
+Lemma kappa_rzx_coords theta : kappaR (kak_coeffsR (- (theta / 2)) 0 0) = 1 + 2 * Rabs (sin theta).
+Proof.
+  rewrite kappa_weyl_t00. replace (2 * - (theta / 2)) with (- theta) by field. now rewrite Rabs_sin_neg.
+Qed.
+
+Lemma kappa_xxpyy_coords theta :
+  kappaR (kak_coeffsR (- (theta / 4)) (- (theta / 4)) 0)
+  = 1 + 4 * Rabs (sin (theta / 2)) + 2 * (sin (theta / 2) * sin (theta / 2)).
+Proof.
+  rewrite kappa_weyl_tt0. replace (2 * - (theta / 4)) with (- (theta / 2)) by field.
+  rewrite Rabs_sin_neg, sin_neg. f_equal. ring.
+Qed.
+
+Lemma kappa_xxmyy_coords theta :
+  kappaR (kak_coeffsR (- (theta / 4)) (theta / 4) 0)
+  = 1 + 4 * Rabs (sin (theta / 2)) + 2 * (sin (theta / 2) * sin (theta / 2)).
+Proof.
+  rewrite kappa_weyl, weyl_neg_a, <- kappa_weyl, kappa_weyl_tt0.
+  now replace (2 * (theta / 4)) with (theta / 2) by field.
 Qed.
